@@ -78,6 +78,40 @@ example : update { name := "nginx", newTag := "9.9" } "nginx:1.0@sha256:abcd" = 
     update { name := "nginx", newName := "o", newTag := "t", digest := "sha256:d" } "nginx" = "o:t@sha256:d" ∧
     update { name := "nginx", newTag := "9" } "mynginx:1" = "mynginx:1" := by decide
 
+/-! ### what a matched image becomes — the decision table of `SetImageValue`, for every image text -/
+
+/-- the name part of the result: `newName` when given, else the name part of the image -/
+def outName (e : Entry) (v : String) : String := if e.newName ≠ "" then e.newName else (split v).1
+
+/-- **newTag and digest both given**: both are written, whatever tag/digest the image carried -/
+theorem update_tag_and_digest (e : Entry) (v : String) (hm : isImageMatched v e.name = true)
+    (ht : e.newTag ≠ "") (hd : e.digest ≠ "") :
+    update e v = outName e v ++ ":" ++ e.newTag ++ "@" ++ e.digest := by
+  simp [update, hm, ht, hd, outName, String.append_assoc]
+
+/-- **newTag only**: the tag is replaced and an existing digest is DROPPED (a digest pins other content) -/
+theorem update_tag_only (e : Entry) (v : String) (hm : isImageMatched v e.name = true)
+    (ht : e.newTag ≠ "") (hd : e.digest = "") :
+    update e v = outName e v ++ ":" ++ e.newTag := by
+  simp [update, hm, ht, hd, outName, String.append_assoc]
+
+/-- **digest only**: the digest is written and an existing tag is dropped -/
+theorem update_digest_only (e : Entry) (v : String) (hm : isImageMatched v e.name = true)
+    (ht : e.newTag = "") (hd : e.digest ≠ "") :
+    update e v = outName e v ++ "@" ++ e.digest := by
+  simp [update, hm, ht, hd, outName, String.append_assoc]
+
+/-- **newName only**: tag and digest of the image are kept as they were split -/
+theorem update_name_only (e : Entry) (v : String) (hm : isImageMatched v e.name = true)
+    (ht : e.newTag = "") (hd : e.digest = "") (hs : e.tagSuffix = "") :
+    update e v = outName e v ++ (if (split v).2.1 ≠ "" then ":" ++ (split v).2.1 else "") ++
+      (if (split v).2.2 ≠ "" then "@" ++ (split v).2.2 else "") := by
+  simp [update, hm, ht, hd, hs, outName]
+
+/-- the hypotheses are met by ordinary entries -/
+example : isImageMatched "nginx:1.0@sha256:abcd" "nginx" = true ∧
+    update { name := "nginx", newTag := "2" } "nginx:1.0@sha256:abcd" = "nginx:2" := by decide
+
 /-- the pre-repair matcher used the name as a regular expression: `x.y` matched `xzy` (witness for the fixed
     finding, stated on a one-wildcard model of the old behaviour) -/
 def oldDotMatches (name img : List Char) : Bool :=
